@@ -137,6 +137,8 @@ def _build_shapes(names):
           kind='public', note="Dtype(name, n).build(v): a Bits of exactly n bits with the canonical encoding, ValueError if v does not fit")
 def build_spec(C, self, value):
     name, n = self.attrs['_name'], self.attrs['_length']
+    if name not in INT_ROWS or n is None or not sym.is_intlike(value) or self.attrs.get('_scale') is not None:
+        return INLINE
     signed, endian, whole = INT_ROWS[name]
     V = enc_int(C, value, n, signed)
     if endian == 'le':
